@@ -11,9 +11,11 @@ import "go.starlark.net/syntax"
 // front end and interpreter through EvalOptions).
 //
 // Bounds: strings of 1 symbolic ASCII byte (longer strings: H15.1), bytes of 1
-// arbitrary symbolic byte, ints in [-maxint, maxint]; four container shapes
-// nested to depth 2. Floats and big ints are outside (formatting is an opaque
-// model).
+// arbitrary symbolic byte, symbolic ints with 100 <= |i| <= maxint (smaller
+// magnitudes take strconv's table fast path, which the engine can only
+// enumerate; they appear as the concrete elements 0, 7, -42); four container
+// shapes nested to depth 2. Floats and big ints are outside (formatting is an
+// opaque model).
 //
 //verif:unwind 400
 func zzH15_repr_eval() {
@@ -21,8 +23,9 @@ func zzH15_repr_eval() {
 	zzAssume(s[0] < 0x80)
 	by := zzString("b", 1)
 	i := zzI64("i")
-	m := int64(zzParam("maxint", 99, 100000))
+	m := int64(zzParam("maxint", 9999, 1000000))
 	zzAssume(zzAnd(i >= -m, i <= m))
+	zzAssume(zzOr(i >= 100, i <= -100))
 	var v Value
 	switch zzChoice("shape", 4) {
 	case 0:
@@ -34,7 +37,7 @@ func zzH15_repr_eval() {
 		d.SetKey(String(s), Tuple{MakeInt64(i), None, True})
 		v = d
 	case 3:
-		v = NewList([]Value{NewList(nil), Tuple{}, NewDict(0), False, String(s + "\"" + s), Tuple{Bytes(by), String(s)}})
+		v = NewList([]Value{NewList(nil), Tuple{}, NewDict(0), False, MakeInt(0), MakeInt(7), MakeInt(-42), Tuple{String(s + "\"" + s)}})
 	}
 	text := v.String()
 	zzObserve("text", text)
